@@ -53,6 +53,17 @@ theorem div_wellRecorded (a b t : Tree) (ha : wellRecorded a = true) (hb : wellR
     injection h with h; subst h
     simp [wellRecorded, evalOp, hv, ha, hb]
 
+/-- the hour-by-hour comparison records a formula that reproduces its value too -/
+theorem compared_wellRecorded (isMax : Bool) (a b t : Tree) (ha : wellRecorded a = true) (hb : wellRecorded b = true)
+    (h : mkCompared isMax a b = .ok t) : wellRecorded t = true := by
+  unfold mkCompared at h
+  cases hv : a.val.npCompared isMax b.val with
+  | error e => simp [hv, bind, Except.bind] at h
+  | ok v =>
+    simp only [hv, bind, Except.bind, pure, Except.pure] at h
+    injection h with h; subst h
+    cases isMax <;> simp [wellRecorded, evalOp, hv, ha, hb]
+
 theorem sum_wellRecorded (a t : Tree) (ha : wellRecorded a = true) (h : mkSum a = .ok t) : wellRecorded t = true := by
   unfold mkSum at h
   cases hv : a.val.sum with
